@@ -414,3 +414,116 @@ def dotted_imports(run):
         finally:
             shutil.rmtree(top, ignore_errors=True)
     core.explore(lambda: None, lambda p, out: go(p))
+
+
+DECORATED = '''import functools
+
+
+def passthrough(fn):
+    @functools.wraps(fn)
+    def inner(*a, **k):
+        return fn(*a, **k)
+    return inner
+
+
+class Root(object):
+    limit = 10
+
+    def configure(self):
+        self.options = {}
+
+    @property
+    def table(self):
+        self._table = [self.limit]
+        return self._table
+
+    @table.setter
+    def table(self, value):
+        self.set_by_setter = value
+
+    @passthrough
+    def wrapped(self):
+        self.by_wrapped = 1
+
+    @classmethod
+    def make(cls):
+        cls.made_by_classmethod = 1
+        return cls()
+
+    def __enter__(self):
+        self.entered = True
+        return self
+
+    def __exit__(self, *a):
+        pass
+
+
+class Middle(Root):
+    def run(self):
+        self.state = 1
+
+    @property
+    def lazy(self):
+        self.lazy_value = 2
+        return self.lazy_value
+
+    @functools.lru_cache(None)
+    def cached(self):
+        self.by_cached = 3
+
+
+class Leaf(Middle):
+    leaf_flag = True
+
+    def __call__(self):
+        self.called = 1
+'''
+# how the oracle drives the object so that every assignment through self has run
+DRIVE = '''obj = Leaf()
+obj.configure(); obj.table; obj.table = 5; obj.wrapped(); made = Leaf.make(); obj.run(); obj.lazy; obj.cached(); obj()
+with obj: pass
+'''
+DECORATED_RECEIVERS = [('obj = Leaf()\nobj.', 'instance'), ('Leaf.', 'class'),
+                       ('class Sub(Leaf):\n    def probe(self):\n        return self.', 'self in a method of a subclass')]
+# (the value of `cls()` inside a classmethod and of a name bound by `with ... as` are not among the values supp determines; an attribute
+#  assigned through `cls` is not one "assigned through self": the statement does not demand them)
+
+
+@harness(['C06'], 'supp.assistant.assist on obj.attr [self-assignments in property getters / setters, decorated and special methods, under CPython]',
+         bounded='1 hierarchy of 3 classes whose attributes are assigned through self in a plain method, a property getter, a property setter, a method '
+                 'wrapped by a source decorator, one wrapped by functools.lru_cache, __enter__, __call__, and through cls in a classmethod; receivers: '
+                 'an instance, the class, self in a method of a further subclass')
+def decorated_methods(run):
+    """BOUNDED: proposals include every source-defined attribute CPython finds on the real object after every method ran (vars(obj), class-body
+    names along the MRO) - also when the assigning method is a property getter or setter, is wrapped by a decorator, or is a special method
+    inherited from a base.  Not counted as proved."""
+    import supp.assistant as A
+    import supp.project as Pj
+
+    def go(path):
+        ns = {}
+        exec(compile(DECORATED + DRIVE, '<c06>', 'exec'), ns)
+        obj, Leaf = ns['obj'], ns['Leaf']
+        class_names = set()
+        for k in Leaf.__mro__:
+            if k is not object:
+                class_names |= {n for n in vars(k) if not (n.startswith('__') and n.endswith('__')) or n in ('__enter__', '__exit__', '__call__')}
+        inst_names = set(vars(obj)) | class_names
+        for tail, what in DECORATED_RECEIVERS:
+            src = DECORATED + tail
+            lines = src.split('\n')
+            pos = (len(lines), len(lines[-1]))
+            want = (class_names if what == 'class' else inst_names) - {'made_by_classmethod'}
+            try:
+                got = set(A.assist(Pj.Project(['/nonexistent']), src, pos)[1])
+            except Exception as e:
+                got = {'<raised %s>' % type(e).__name__}
+            missing = sorted(want - got)
+            if missing:
+                core.RUN.concretise = lambda model, ob, src=src, pos=pos, missing=missing: {'input': src, 'script': REPLAY % {
+                    'repo': core.REPO, 'text': src, 'call': 'sorted(set(%r) - set(assist(p, text, %r)[1]))' % (missing, pos), 'mro': 'Leaf, Middle, Root, object',
+                    'want': 'every name of %r proposed' % (missing,), 'why': 'attributes CPython finds on the real object are not proposed (printed above)'}}
+            prove('decorated-methods:%s' % what, not missing,
+                  clause='proposals on the %s include every source-defined attribute CPython finds [missing %r]' % (what, missing), path=path)
+            core.RUN.concretise = None
+    core.explore(lambda: None, lambda p, out: go(p))
